@@ -25,7 +25,7 @@ RULE = ('cases: seeded histories of 5-20 adds/removes of named cell components o
 ASSUMPTIONS = ['removing np.copy is observationally invisible under pandas copy-on-write (stated reach limit)',
                'generators are pure functions of the coordinates', 'F4 (LookupGenerator on low-dimensional worlds) is a known finding']
 FLOORS = {'quick': {'column_comparisons': 8000, 'src_callable': 330, 'src_list': 310, 'src_numpy': 320, 'src_constant': 300,
-                    'src_lookup3': 300, 'src_lookup_lowdim': 190, 'removals': 500, 'rejected_unknown_removal': 300, 'source_mutations': 600,
+                    'src_lookup3': 300, 'src_lookup_lowdim': 190, 'removals': 400, 'in_place_updates': 300, 'rejected_unknown_removal': 300, 'source_mutations': 600,
                     'get_cell_rows': 3000, 'shapes_line': 50, 'shapes_grid': 50, 'shapes_3d': 50, 'shapes_degenerate': 50,
                     'generator_calls_checked': 2500, 'reach:Environments.DiscreteWorld.add_cell_component': 1900,
                     'reach:Environments.LookupGenerator.__call__': 1000},
@@ -184,7 +184,24 @@ def case_history(ctx, case):
                     verify_after.append('extra')
                 ctx.count('source_mutations')
                 verify(f'after mutating the caller\'s {src} used for {name}')
-        elif x < 0.85 and shadow:
+        elif x < 0.72 and shadow:
+            # the model updates a component's values in place (whole column or one cell), through the documented cells table
+            name = rng.choice(list(shadow))
+            homogeneous = all(type(v) is int for v in shadow[name]) or all(type(v) is str for v in shadow[name])
+            if rng.random() < 0.5 or not homogeneous:      # (a mixed None/number list would be coerced by pandas itself)
+                vals = [f'u{step}:{i}' for i in range(ncells)]
+                env.cells[name] = list(vals)
+                shadow[name] = vals
+            else:
+                i = rng.randrange(ncells)
+                col = list(shadow[name])
+                col[i] = -1000 - step if not isinstance(col[i], str) else f'cell{step}'
+                env.cells[name] = col
+                shadow[name] = col
+            ctx.count('in_place_updates')
+            trace.append(('update', name))
+            verify(f'after updating {name} in place')
+        elif x < 0.88 and shadow:
             name = rng.choice(list(shadow))
             env.remove_cell_component(name)
             del shadow[name]
